@@ -337,10 +337,18 @@ void mmd_export_image_html(DString * out, const char * source, token * text, lin
 	}
 
 	if (is_figure) {
-		// Remove wrapping <p> markers
-		d_string_erase(out, out->currentStringLength - 3, 3);
-		print_const("<figure>\n");
-		scratch->close_para = false;
+		if ((out->currentStringLength >= 3) &&
+				(strncmp(&out->str[out->currentStringLength - 3], "<p>", 3) == 0)) {
+			// Remove wrapping <p> markers
+			d_string_erase(out, out->currentStringLength - 3, 3);
+			print_const("<figure>\n");
+			scratch->close_para = false;
+		} else {
+			// Only an image that is alone in its paragraph becomes a figure --
+			// an image that is alone in something else (e.g. a table cell)
+			// has no wrapping <p> to remove
+			is_figure = false;
+		}
 	}
 
 	if (link->url) {
